@@ -6,6 +6,8 @@
 From Coq Require Import List ZArith Bool.
 From Coq Require Floats.
 From LN Require Import C19_Defs C19_Proofs.
+From LNGen Require Import Src_c19_params.
+From LN Require Import C19_FactoryDefs C19_Factory.
 Import ListNotations.
 Local Open Scope Z_scope.
 
@@ -248,3 +250,94 @@ Example C19_nonvacuous_config :
   srun [[mkParam [97] p]] [SClone 0; SOp 1 (CAssign [97] (AInt 7))] =
     Some [[mkParam [97] p]; [mkParam [97] (SIRange 7 0 10 LE LE)]].
 Proof. vm_compute. repeat split; reflexivity. Qed.
+
+(* ============================================================================================== *)
+(* Extension: the factory clause as theorems about the parameter table REGENERATED FROM THE SOURCE on every run
+   (LNGen.Src_c19_params, written by tools/checks/c19_params.py from every register_parameter(parameter_t::make_*(...))
+   call, every constructor and every parameter("name") use of src/ and include/).  The finite table is the domain of the
+   statements; it is compared exactly with what the compiled library registers on every run (stage FACTTAB). *)
+
+(* every declared default lies in its declared domain, ordering constraint of pairs included; no make_* argument is
+   cast outside the defined range of static_cast<int64_t> (param_storage = None otherwise); the parameter stores the
+   declared values.  `make`/`Inv` are the predicates of C19_construction / C19_inv. *)
+Theorem C19_factory_defaults_in_domain : forall p, In p src_c19_params ->
+  exists s, param_storage p = Some s /\ make s = Ok s /\ Inv s.
+Proof. exact defaults_in_domain. Qed.
+Print Assumptions C19_factory_defaults_in_domain.
+
+(* per class (constructor chain: base classes first, ::config helpers inlined, assignments of constructor bodies): no
+   statement of the constructor throws, names are pairwise distinct, every parameter is inside its domain, one parameter
+   per register_parameter call *)
+Theorem C19_factory_objects_constructible : forall o, In o src_c19_objects ->
+  exists h c, object_ops o = Some h /\ cbuild [] h = Some c /\ crun [] h = Some c /\
+              NoDup (names c) /\ Forall (fun p => Inv (pstore p)) c /\ List.length c = regs o.
+Proof. exact objects_constructible. Qed.
+Print Assumptions C19_factory_objects_constructible.
+
+(* a completed constructor is a history without a throwing statement (all histories) *)
+Theorem C19_factory_cbuild_no_throw : forall h1 o h2 c c',
+  cbuild c (h1 ++ o :: h2) = Some c' ->
+  exists c1 c2, cbuild c h1 = Some c1 /\ cstep c1 o = COk c2 /\ cbuild c2 h2 = Some c'.
+Proof. exact cbuild_no_throw. Qed.
+Print Assumptions C19_factory_cbuild_no_throw.
+
+(* the per-class objects consist of source records only *)
+Theorem C19_factory_objects_from_source : forall o i name, In o src_c19_objects -> In (EReg i name) (so_entries o) ->
+  exists p, nth_error src_c19_params i = Some p /\ In p src_c19_params /\
+            name_matches (sp_name p) (so_type_id o) name = true.
+Proof. exact objects_instances. Qed.
+Print Assumptions C19_factory_objects_from_source.
+
+(* every parameter("name") used by the library's own code names a parameter of (each most derived class of) the object
+   it is evaluated on; the typed read next to it has the declared kind (enumerations: the same name table), its integer
+   result type contains the declared range, it does not truncate a floating-point parameter (two accepted exceptions,
+   lossy_reads_accepted); a constant assigned there is accepted *)
+Theorem C19_factory_uses_resolve : forall u, In u src_c19_uses ->
+  exists o c s, nth_error src_c19_objects (su_obj u) = Some o /\ object_config o = Some c /\
+                find_store c (bytes_of (su_name u)) = Some s /\ use_ok (su_name u) (su_read u) s = true.
+Proof. exact uses_resolve. Qed.
+Print Assumptions C19_factory_uses_resolve.
+
+(* ... therefore, after ANY history of assignments to that parameter, the lookup succeeds and the typed read does not
+   throw (kind never changes: C19_inv) *)
+Theorem C19_factory_reads_never_throw : forall u f, In u src_c19_uses -> reader (su_read u) = Some f ->
+  exists o c s, nth_error src_c19_objects (su_obj u) = Some o /\ object_config o = Some c /\
+                In (bytes_of (su_name u)) (names c) /\
+                (forall rd, cread c (bytes_of (su_name u)) rd = rd s) /\
+                forall h, exists s', run s h = Some s' /\ Inv s' /\ f s' <> RThrow.
+Proof. exact reads_never_throw. Qed.
+Print Assumptions C19_factory_reads_never_throw.
+
+(* kind_ok is the model's type-mismatch rule, for all states: compatible => no throw in any state with that domain,
+   incompatible (non-enumeration reads) => throws *)
+Theorem C19_factory_kind_rule :
+  (forall rd f s s', reader rd = Some f -> kind_ok rd s = true -> domain_of s' = domain_of s -> f s' <> RThrow) /\
+  (forall rd f s, reader rd = Some f -> (forall ty names, rd <> RdEnum ty names) -> kind_ok rd s = false -> f s = RThrow).
+Proof. split; [exact kind_ok_no_throw|exact kind_bad_throws]. Qed.
+Print Assumptions C19_factory_kind_rule.
+
+(* non-vacuity: the tables are not empty, the hypotheses are inhabited, and each check rejects what it must *)
+Example C19_factory_nonvacuous_tables :
+  (100 <= List.length src_c19_params)%nat /\ (80 <= List.length src_c19_objects)%nat /\ (200 <= List.length src_c19_uses)%nat.
+Proof. exact table_sizes. Qed.
+
+Example C19_factory_nonvacuous_rejects :
+  param_ok bad_default_at_lt_bound = false /\ param_ok bad_swapped_bounds = false /\ param_ok bad_cast = false /\
+  param_ok bad_pair_order = false /\
+  cbuild [] [CRegister [97] (SIRange 1 0 2 LE LE); CRegister [97] (SIRange 1 0 2 LE LE)] = None /\
+  cbuild [] [CRegister [97] (SIRange 1 0 2 LE LE); CAssign [98] (AInt 1)] = None /\
+  cbuild [] [CRegister [97] (SIRange 1 0 2 LE LE); CAssign [97] (AInt 3)] = None /\
+  find_store [mkParam [97] (SIRange 1 0 2 LE LE)] [98] = None /\
+  use_ok (String.String (Ascii.ascii_of_nat 97) String.EmptyString) RdPairF (SIRange 1 0 2 LE LE) = false /\
+  use_ok (String.String (Ascii.ascii_of_nat 97) String.EmptyString) RdI64 (SFRange fx_05 fx_0 fx_1 LE LE) = false /\
+  use_ok (String.String (Ascii.ascii_of_nat 97) String.EmptyString) RdF64 (SFRange fx_05 fx_0 fx_1 LE LE) = true /\
+  cbuild [] [CRegister [97] (SIRange 1 0 2 LE LE); CAssign [97] (AInt 2)] = Some [mkParam [97] (SIRange 2 0 2 LE LE)].
+Proof. vm_compute. repeat split; reflexivity. Qed.
+
+Example C19_factory_nonvacuous_reader : exists u f, In u src_c19_uses /\ reader (su_read u) = Some f.
+Proof.
+  assert (K : existsb (fun v => match reader (su_read v) with Some _ => true | None => false end) src_c19_uses = true)
+    by (vm_compute; reflexivity).
+  apply existsb_exists in K. destruct K as (v & Iv & Kv).
+  destruct (reader (su_read v)) as [f|] eqn:R; [|discriminate]. exists v, f. split; [exact Iv|exact R].
+Qed.
